@@ -490,27 +490,26 @@ theorem iVersion_unhandled (c : ConstId) :
 
 theorem dispatch_eq (g : GW) (m : Msg) :
     dispatch g m =
-      if m.type = g.t.mtPresentation then dispatchBy .handle_presentation g m
-      else if m.type = g.t.mtSet then handleSet g m
-      else if m.type = g.t.mtReq then handleReq g m
-      else if m.type = g.t.mtInternal then handleInternal g m
-      else if m.type = g.t.mtStream then handleStream g m
+      if m.type = (Tables.tables g.const).mtPresentation then dispatchBy .handle_presentation g m
+      else if m.type = (Tables.tables g.const).mtSet then handleSet g m
+      else if m.type = (Tables.tables g.const).mtReq then handleReq g m
+      else if m.type = (Tables.tables g.const).mtInternal then handleInternal g m
+      else if m.type = (Tables.tables g.const).mtStream then handleStream g m
       else fail g .typeError := by
   unfold dispatch
   rw [show g.t.typeHandlers = _ from typeHandlers_eq g.const]
   simp only [lookup]
-  show _ = if m.type = (Tables.tables g.const).mtPresentation then _ else _
   by_cases h1 : m.type = (Tables.tables g.const).mtPresentation
   · simp only [if_pos h1]
   · by_cases h2 : m.type = (Tables.tables g.const).mtSet
-    · simp only [if_neg h1, if_pos h2, GW.t, dispatchBy]
+    · simp only [if_neg h1, if_pos h2, dispatchBy]
     · by_cases h3 : m.type = (Tables.tables g.const).mtReq
-      · simp only [if_neg h1, if_neg h2, if_pos h3, GW.t, dispatchBy]
+      · simp only [if_neg h1, if_neg h2, if_pos h3, dispatchBy]
       · by_cases h4 : m.type = (Tables.tables g.const).mtInternal
-        · simp only [if_neg h1, if_neg h2, if_neg h3, if_pos h4, GW.t, dispatchBy]
+        · simp only [if_neg h1, if_neg h2, if_neg h3, if_pos h4, dispatchBy]
         · by_cases h5 : m.type = (Tables.tables g.const).mtStream
-          · simp only [if_neg h1, if_neg h2, if_neg h3, if_neg h4, if_pos h5, GW.t, dispatchBy]
-          · simp only [if_neg h1, if_neg h2, if_neg h3, if_neg h4, if_neg h5, GW.t]
+          · simp only [if_neg h1, if_neg h2, if_neg h3, if_neg h4, if_pos h5, dispatchBy]
+          · simp only [if_neg h1, if_neg h2, if_neg h3, if_neg h4, if_neg h5]
 
 theorem obs_handlePresentationBy (g : GW) (m : Msg) :
     obs (dispatchBy .handle_presentation g m) =
@@ -553,27 +552,24 @@ theorem obs_dispatch (g : GW) (m : Msg)
     obs (dispatch g m) = obsBy (meaning g.const m) g.persisted m := by
   rw [dispatch_eq] at hx ⊢
   unfold meaning
-  show (obs (if m.type = (Tables.tables g.const).mtPresentation then _ else _)) = _
-  change (fallibleFirst g.const m = true →
-    (if m.type = (Tables.tables g.const).mtPresentation then _ else _ : Res).2.exc = none) at hx
   by_cases h1 : m.type = (Tables.tables g.const).mtPresentation
   · simp only [if_pos h1]
     exact obs_handlePresentationBy g m
   · by_cases h2 : m.type = (Tables.tables g.const).mtSet
-    · simp only [if_neg h1, if_pos h2, GW.t]
+    · simp only [if_neg h1, if_pos h2]
       exact obs_handleSet g m
     · by_cases h3 : m.type = (Tables.tables g.const).mtReq
-      · simp only [if_neg h1, if_neg h2, if_pos h3, GW.t]
+      · simp only [if_neg h1, if_neg h2, if_pos h3]
         exact obs_handleReq g m
       · by_cases h4 : m.type = (Tables.tables g.const).mtInternal
-        · simp only [if_neg h1, if_neg h2, if_neg h3, if_pos h4, GW.t] at hx ⊢
+        · simp only [if_neg h1, if_neg h2, if_neg h3, if_pos h4] at hx ⊢
           apply obs_handleInternal g m
           intro hl
           apply hx
           simp only [fallibleFirst, h4, decide_true, Bool.true_and, Bool.or_eq_true, decide_eq_true_eq]
           exact Or.inl hl
         · by_cases h5 : m.type = (Tables.tables g.const).mtStream
-          · simp only [if_neg h1, if_neg h2, if_neg h3, if_neg h4, if_pos h5, GW.t] at hx ⊢
+          · simp only [if_neg h1, if_neg h2, if_neg h3, if_neg h4, if_pos h5] at hx ⊢
             have hf : fallibleFirst g.const m = true := by
               simp only [fallibleFirst, h5, decide_true, Bool.or_true]
             rw [obs_handleStream g m (hx hf)]
@@ -581,7 +577,267 @@ theorem obs_dispatch (g : GW) (m : Msg)
             cases hl : lookup m.sub (Tables.tables g.const).streamHandlers with
             | none => simp [GW.t, hl, specBy, notifiesBy]
             | some h => simp [GW.t, hl, specBy, notifiesBy]
-          · simp only [if_neg h1, if_neg h2, if_neg h3, if_neg h4, if_neg h5, GW.t]
+          · simp only [if_neg h1, if_neg h2, if_neg h3, if_neg h4, if_neg h5]
             rfl
+
+/-! ### lines -/
+
+theorem logic_accepted (g : GW) (l : Str) (m : Msg) (h : acceptedMsg g.const l = some m) :
+    logic g l = dispatch g m := by
+  unfold acceptedMsg at h
+  unfold logic
+  cases hd : decode l with
+  | none => simp [hd] at h
+  | some m' =>
+    simp only [hd] at h ⊢
+    by_cases hv : validate g.const m' = true
+    · simp only [hv, ↓reduceIte, Option.some.injEq] at h ⊢
+      rw [h]
+    · simp [hv] at h
+
+theorem logic_rejected (g : GW) (l : Str) (h : acceptedMsg g.const l = none) : logic g l = ret g := by
+  unfold acceptedMsg at h
+  unfold logic
+  cases hd : decode l with
+  | none => rfl
+  | some m' =>
+    simp only [hd] at h ⊢
+    by_cases hv : validate g.const m' = true
+    · simp [hv] at h
+    · simp [hv]
+
+theorem acceptedMsg_some (c : ConstId) (l : Str) (m : Msg) (hd : decode l = some m) (hv : validate c m = true) :
+    acceptedMsg c l = some m := by
+  unfold acceptedMsg; simp [hd, hv]
+
+theorem acceptedMsg_none (c : ConstId) (l : Str)
+    (h : decode l = none ∨ ∃ m, decode l = some m ∧ validate c m = false) : acceptedMsg c l = none := by
+  unfold acceptedMsg
+  rcases h with h | ⟨m, hd, hv⟩
+  · simp [h]
+  · simp [hd, hv]
+
+theorem transportFilter_obs (g0 : GW) (r : Res) : obs (transportFilter g0 r) = obs r := by
+  unfold transportFilter; split <;> rfl
+
+theorem transportFilter_exc (g0 : GW) (r : Res) : (transportFilter g0 r).2.exc = r.2.exc := by
+  unfold transportFilter; split <;> rfl
+
+theorem transportFilter_ret (g : GW) : transportFilter g (ret g) = (g, {}) := by
+  unfold transportFilter ret; split <;> rfl
+
+/-- **commuting square for an accepted line** -/
+theorem obs_line_accepted (g : GW) (l : Str) (m : Msg) (hacc : acceptedMsg g.const l = some m)
+    (hx : fallibleFirst g.const m = true → (step g (.line l)).2.exc = none) :
+    obs (step g (.line l)) = obsBy (meaning g.const m) g.persisted m := by
+  simp only [step, transportFilter_exc, transportFilter_obs, logic_accepted g l m hacc] at hx ⊢
+  exact obs_dispatch g m hx
+
+theorem step_line_rejected (g : GW) (l : Str) (h : acceptedMsg g.const l = none) :
+    step g (.line l) = (g, {}) := by
+  simp only [step, logic_rejected g l h, transportFilter_ret]
+
+/-! ### controller calls -/
+
+theorem obs_storeDesired (g : GW) (node child : Int) (n : Node) (vt : Option Int) (value : Str)
+    (hn : aget node g.sensors = some n) : obs (storeDesired g node child n vt value) = (g.persisted, []) := by
+  unfold storeDesired
+  split
+  · rfl
+  · split
+    · rfl
+    · rfl
+    · simp only [obs, ret, Prod.mk.injEq, and_true]
+      exact persisted_setNode g node n _ hn rfl
+
+theorem obs_setChildValue (g : GW) (node child : Int) (vt : VT) (value : Str) (ack : Option Int) :
+    obs (setChildValue g node child vt value ack) = (g.persisted, []) := by
+  unfold setChildValue
+  rw [obs_ifKnown_child]
+  split
+  · unfold withNode
+    split
+    · rfl
+    · rename_i n hn
+      dsimp only
+      split
+      · rfl
+      · split
+        · exact obs_storeDesired g node child n _ value hn
+        · rfl
+  · rfl
+
+theorem persisted_scheduleNode (fwt fwv : Int) (g : GW) (nid : Int) :
+    (scheduleNode fwt fwv g nid).persisted = g.persisted := by
+  unfold scheduleNode
+  split
+  · rfl
+  · rename_i n hn
+    exact persisted_setNode { g with ota := _ } nid n _ hn rfl
+
+theorem persisted_foldl_scheduleNode (fwt fwv : Int) (nids : List Int) (g : GW) :
+    (nids.foldl (scheduleNode fwt fwv) g).persisted = g.persisted := by
+  induction nids generalizing g with
+  | nil => rfl
+  | cons x xs ih => rw [List.foldl_cons, ih, persisted_scheduleNode]
+
+theorem persisted_makeUpdate (g : GW) (nids : List Int) (fwt fwv : Int) (image : Option (List Nat)) :
+    (makeUpdate g nids fwt fwv image).persisted = g.persisted := by
+  unfold makeUpdate
+  split
+  · rfl
+  · split
+    · split
+      · rfl
+      · rw [persisted_foldl_scheduleNode]; rfl
+    · split
+      · rfl
+      · rw [persisted_foldl_scheduleNode]
+
+/-- ops issued by the controller: set a value, schedule firmware, clock, metric flag -/
+def Op.controller : Op → Bool
+  | .setValue _ _ _ _ _ => true
+  | .update _ _ _ _ => true
+  | .clock _ => true
+  | .metric _ => true
+  | _ => false
+
+theorem obs_step_controller (g : GW) (op : Op) (h : op.controller = true) :
+    obs (step g op) = (g.persisted, []) := by
+  cases op with
+  | setValue n c vt v a => simp only [step, transportFilter_obs]; exact obs_setChildValue g n c vt v a
+  | update nids t v img => simp only [step, obs, persisted_makeUpdate]
+  | clock t => rfl
+  | metric b => rfl
+  | _ => simp [Op.controller] at h
+
+/-! ### persistence ops -/
+
+theorem persisted_save (g : GW) : (save g).persisted = g.persisted := by
+  unfold GW.persisted; rw [(save_spec g).1]
+
+theorem pmap_restore (d : Tree) : pmap (d.map fun (k, p) => (k, p.restore)) = d := by
+  induction d with
+  | nil => rfl
+  | cons x xs ih =>
+    obtain ⟨k, p⟩ := x
+    simp only [List.map_cons, pmap_cons, ih]
+    rfl
+
+theorem persisted_restart (g : GW) : (restart g).persisted = if g.persist then g.disk.getD [] else [] := by
+  unfold restart
+  rw [persisted_eq]
+  by_cases h : g.persist = true
+  · simp only [h, ↓reduceIte]; exact pmap_restore _
+  · simp only [h]; rfl
+
+/-! ### histories -/
+
+/-- did this line, if it is an accepted fallible-first message, get through without raising -/
+def quietLine (g : GW) (l : Str) : Bool :=
+  match acceptedMsg g.const l with
+  | some m => !fallibleFirst g.const m || (step g (.line l)).2.exc.isNone
+  | none => true
+
+def quietAt (g : GW) : Op → Bool
+  | .line l => quietLine g l
+  | _ => true
+
+/-- no fallible-first handler raised along the history (C01: none ever does) -/
+def quiet (g : GW) : List Op → Bool
+  | [] => true
+  | op :: ops => quietAt g op && quiet (step g op).1 ops
+
+/-- the callbacks fired along a history, in order -/
+def callbacks (g : GW) : List Op → List Msg
+  | [] => []
+  | op :: ops => (step g op).2.cbs ++ callbacks (step g op).1 ops
+
+theorem const_step (g : GW) (op : Op) (hk : KeyRange g) : (step g op).1.const = g.const := by
+  by_cases hp : op.plain = true
+  · exact (tr_step g op hp hk).const
+  · cases op with
+    | saveTick | stop => simp only [step, save]; split <;> rfl
+    | restart => rfl
+    | _ => simp [Op.plain] at hp
+
+theorem disk_save (g : GW) (hc : Clean g) :
+    (save g).disk = if g.persist then some g.persisted else g.disk := by
+  by_cases hp : g.persist = true
+  · simp only [hp, ↓reduceIte]
+    by_cases hn : g.needSave = true
+    · exact ((save_spec g).2.2.1 hp hn).1
+    · rw [(save_spec g).2.2.2 (fun hh => hn hh.2)]
+      exact hc hp (by simpa using hn)
+  · simp only [hp]
+    rw [(save_spec g).2.2.2 (fun hh => hp hh.1)]
+    rfl
+
+/-- one op of a history keeps model and specification in step -/
+theorem refines_op (g : GW) (s : SpecState) (op : Op) (hk : KeyRange g) (hc : Clean g)
+    (ht : g.persisted = s.tree) (hd : g.disk = s.disk) (hq : quietAt g op = true) :
+    (step g op).1.persisted = (specOp g.const g.persist s op).tree ∧
+    (step g op).1.disk = (specOp g.const g.persist s op).disk ∧
+    (step g op).2.cbs = specNotifyOp g.const s op := by
+  cases op with
+  | line l =>
+    have hdisk : (step g (.line l)).1.disk = g.disk := (tr_step g (.line l) rfl hk).disk
+    simp only [specOp, specNotifyOp]
+    cases hacc : acceptedMsg g.const l with
+    | none =>
+      rw [step_line_rejected g l hacc]
+      exact ⟨ht, hd, rfl⟩
+    | some m =>
+      have hx : fallibleFirst g.const m = true → (step g (.line l)).2.exc = none := by
+        intro hf
+        simp only [quietAt, quietLine, hacc, hf, Bool.not_true, Bool.false_or] at hq
+        cases he : (step g (Op.line l)).2.exc with
+        | none => rfl
+        | some e => rw [he] at hq; simp at hq
+      have ho := obs_line_accepted g l m hacc hx
+      simp only [obs, obsBy, Prod.mk.injEq] at ho
+      refine ⟨?_, ?_, ?_⟩
+      · rw [ho.1, ht]; rfl
+      · rw [hdisk, hd]; rfl
+      · rw [ho.2, ht]; rfl
+  | setValue n c vt v a =>
+    have ho := obs_step_controller g (.setValue n c vt v a) rfl
+    simp only [obs, Prod.mk.injEq] at ho
+    exact ⟨ho.1.trans ht, ((tr_step g _ rfl hk).disk).trans hd, ho.2⟩
+  | update nids t v img =>
+    have ho := obs_step_controller g (.update nids t v img) rfl
+    simp only [obs, Prod.mk.injEq] at ho
+    exact ⟨ho.1.trans ht, ((tr_step g _ rfl hk).disk).trans hd, ho.2⟩
+  | clock t => exact ⟨ht, hd, rfl⟩
+  | metric b => exact ⟨ht, hd, rfl⟩
+  | saveTick =>
+    simp only [step, specOp, specNotifyOp, persisted_save, disk_save g hc]
+    refine ⟨?_, ?_, trivial⟩ <;> split <;> simp [ht, hd]
+  | stop =>
+    simp only [step, specOp, specNotifyOp, persisted_save, disk_save g hc]
+    refine ⟨?_, ?_, trivial⟩ <;> split <;> simp [ht, hd]
+  | restart =>
+    simp only [step, specOp, specNotifyOp, persisted_restart]
+    refine ⟨?_, ?_, trivial⟩
+    · rw [hd]
+    · exact hd
+
+theorem refines_run_all (g : GW) (s : SpecState) (ops : List Op) (hk : KeyInv g) (hc : Clean g)
+    (ht : g.persisted = s.tree) (hd : g.disk = s.disk) (hq : quiet g ops = true) :
+    (run g ops).persisted = (specRun g.const g.persist s ops).tree ∧
+    (run g ops).disk = (specRun g.const g.persist s ops).disk ∧
+    callbacks g ops = specCallbacks g.const g.persist s ops := by
+  induction ops generalizing g s with
+  | nil => exact ⟨ht, hd, rfl⟩
+  | cons op ops ih =>
+    simp only [quiet, Bool.and_eq_true] at hq
+    obtain ⟨h1, h2, h3⟩ := refines_op g s op hk.1 hc ht hd hq.1
+    have hconst := const_step g op hk.1
+    have hpers := persist_step g op hk.1
+    have := ih (step g op).1 (specOp g.const g.persist s op) (keyInv_step g op hk) (clean_step g op hk.1 hc)
+      h1 h2 hq.2
+    rw [hconst, hpers] at this
+    simp only [run, specRun, callbacks, specCallbacks]
+    exact ⟨this.1, this.2.1, by rw [h3, this.2.2]⟩
 
 end MySensors
